@@ -13,7 +13,9 @@ steps can be interleaved anywhere between them:
               (fails if the address is in use); on failure the descriptors obtained so far are closed again
   serve       second loop of startServers: every server of the new instance accepts
   stopOld     Instance.Stop of the old instance begins
-  stop        … one server per step: its listener is closed (it stops accepting)
+  stop        … one server per step: its listener is closed (it stops accepting) — whether or not the drain of that
+              server's connections completes within the graceful period: `Shutdown` returning `context deadline exceeded`
+              is logged by `Instance.Stop` and the loop goes on to the remaining servers
   finish      Restart returns the new instance
 
 Clients:  connect a     a fresh connection to address a: refused iff no socket is bound (no descriptor open);
@@ -202,5 +204,168 @@ def step (m : M) : Act → M
 def run (m : M) : List Act → M
   | [] => m
   | a :: rest => run (step m a) rest
+
+/-! ### sequential schedules (what the hand-over stream runs) -/
+
+/-- observation after one operation of the hand-over stream -/
+structure HObs where
+  res : String
+  fd1 : Nat
+  fd2 : Nat
+  sk1 : Nat
+  sk2 : Nat
+  p1 : String
+  p2 : String
+  /-- length of casket's instance list -/
+  ni : Nat
+  mid : Option String
+  str : Option String
+deriving DecidableEq, Repr
+
+inductive HOp where
+  | reload (c : Cfg)
+  | straddle (c : Cfg)
+  /-- a reload while a request on address 1 stays in flight longer than the graceful period: the drain of that server times
+  out, `Restart` returns, the request completes afterwards -/
+  | longflight (c : Cfg)
+deriving DecidableEq, Repr
+
+def HOp.cfg : HOp → Cfg
+  | .reload c => c
+  | .straddle c => c
+  | .longflight c => c
+
+/-- `Restart` up to (not including) its return, with no client step in between -/
+def reloadHead (g : Nat) (m : M) (c : Cfg) : List Act :=
+  [.begin g c, .setup] ++ List.replicate (c.addrs.length + 1) .listen ++ [.serve, .stopOld]
+    ++ List.replicate m.cur.addrs.length .stop
+
+/-- what the client of the `idx`-th connection got: the generation that answered, `hang` if nobody did, `-` if there is
+no such connection (it was refused) -/
+def connAnswer (m : M) (idx : Nat) : String :=
+  match m.conns[idx]? with
+  | some c => (match c.answered with | some k => toString k | none => "hang")
+  | none => "-"
+
+/-- a fresh connection to `a`, accepted by whoever accepts there now, and answered -/
+def probe (m : M) (a : Nat) : M × String :=
+  let g := if m.new.accepts a then m.new.gen else m.cur.gen
+  let m' := run m [.connect a, .accept g a, .respond m.nextConn]
+  (m', connAnswer m' m.conns.length)
+
+/-- position of a socket identity in the list of those seen so far -/
+def pos : List Nat → Nat → Option Nat
+  | [], _ => none
+  | y :: ys, x => if y = x then some 0 else (pos ys x).map (· + 1)
+
+/-- socket identities renamed in order of first appearance; 0 = no socket -/
+def rename (seen : List Nat) (m : M) (a : Nat) : List Nat × Nat :=
+  if m.fds a = 0 then (seen, 0)
+  else match pos seen (m.sock a) with
+    | some i => (seen, i + 1)
+    | none => (seen ++ [m.sock a], seen.length + 1)
+
+/-- instances in casket's list: the current one, and the one being started while a reload is under way -/
+def instCount (m : M) : Nat :=
+  match m.phase with
+  | .idle => 1
+  | .loading _ _ => 1
+  | _ => 2
+
+def observe (seen : List Nat) (m : M) (res : String) (mid str : Option String) : M × List Nat × HObs :=
+  let r1 := rename seen m 1
+  let r2 := rename r1.1 m 2
+  let q1 := probe m 1
+  let q2 := probe q1.1 2
+  (q2.1, r2.1, { res := res, fd1 := m.fds 1, fd2 := m.fds 2, sk1 := r1.2, sk2 := r2.2, p1 := q1.2, p2 := q2.2,
+                 ni := instCount m, mid := mid, str := str })
+
+/-- `Restart` returned the instance of generation `g` -/
+def resOf (m : M) (g : Nat) : String := if m.cur.gen = g then "ok" else "err"
+
+def runOp (g : Nat) (seen : List Nat) (m : M) : HOp → M × List Nat × HObs
+  | .reload c =>
+    let m1 := run m (reloadHead g m c ++ [.finish])
+    observe seen m1 (resOf m1 g) none none
+  | .straddle c =>
+    let sidx := m.conns.length
+    let m0 := run m [.connect 1, .accept m.cur.gen 1]
+    let connected := m0.conns.length != sidx
+    let m1 := run m0 (reloadHead g m0 c)
+    let q := probe m1 1
+    let m2 := if connected then step q.1 (.respond m.nextConn) else q.1
+    let str := if connected then connAnswer m2 sidx else "-"
+    let m3 := step m2 .finish
+    observe seen m3 (resOf m3 g) (some q.2) (some str)
+  | .longflight c =>
+    let sidx := m.conns.length
+    let m0 := run m [.connect 1, .accept m.cur.gen 1]
+    let connected := m0.conns.length != sidx
+    let m1 := run m0 (reloadHead g m0 c ++ [.finish])
+    let m2 := if connected then step m1 (.respond m.nextConn) else m1
+    let str := if connected then connAnswer m2 sidx else "-"
+    observe seen m2 (resOf m2 g) none (some str)
+
+def runOps : Nat → List Nat → M → List HOp → List HObs
+  | _, _, _, [] => []
+  | g, seen, m, op :: rest =>
+    let r := runOp g seen m op
+    r.2.2 :: runOps (g + 1) r.2.1 r.1 rest
+
+/-- the model's observations of a hand-over case: start on `c0.addrs`, then the operations -/
+def handoverRun (busy : List Nat) (c0 : Cfg) (hops : List HOp) : List HObs :=
+  let r := observe [] (M.init busy c0.addrs) "ok" none none
+  r.2.2 :: runOps 2 r.2.1 r.1 hops
+
+/-! ### servers of several kinds (stream c07.mixed)
+
+casket hands sockets over per ADDRESS and per KIND: the listener of the old server for an address goes to the new server for
+that address, and so does its packet conn.  In this machine a socket is identified by a number; the TCP listener of address
+`a` is socket `2a`, its packet conn is socket `2a+1`, so the two kinds of one address are handed over independently and
+nothing is ever handed over across addresses (the listen step for `x` only looks at what the old instance holds for `x`). -/
+
+inductive MKind where
+  | t | u | b
+deriving DecidableEq, Repr
+
+structure MSrv where
+  kind : MKind
+  addr : Nat
+deriving DecidableEq, Repr
+
+def MSrv.codes (s : MSrv) : List Nat :=
+  match s.kind with
+  | .t => [2 * s.addr]
+  | .u => [2 * s.addr + 1]
+  | .b => [2 * s.addr, 2 * s.addr + 1]
+
+/-- the sockets a list of servers needs, in the order in which `startServers` obtains them -/
+def mixedCfg (srvs : List MSrv) (fail : Bool) : Cfg := { addrs := srvs.flatMap MSrv.codes, failSetup := fail }
+
+/-- descriptors and answer of a fresh connection (datagram), for every observed socket -/
+def observeCells (m : M) : List Nat → M × List (Nat × String)
+  | [] => (m, [])
+  | x :: xs =>
+    let q := probe m x
+    let r := observeCells q.1 xs
+    (r.1, (m.fds x, q.2) :: r.2)
+
+structure MObs where
+  res : String
+  cells : List (Nat × String)
+  /-- some socket was answered by the server of ANOTHER address, or by two different servers (never in the model) -/
+  mis : Bool
+deriving DecidableEq, Repr
+
+def mixedOps (codes : List Nat) : Nat → M → List Cfg → List MObs
+  | _, _, [] => []
+  | g, m, c :: rest =>
+    let m1 := run m (reloadHead g m c ++ [.finish])
+    let r := observeCells m1 codes
+    { res := resOf m1 g, cells := r.2, mis := false } :: mixedOps codes (g + 1) r.1 rest
+
+def mixedRun (busy codes : List Nat) (c0 : Cfg) (cs : List Cfg) : List MObs :=
+  let r := observeCells (M.init busy c0.addrs) codes
+  { res := "ok", cells := r.2, mis := false } :: mixedOps codes 2 r.1 cs
 
 end Casket.Reload
